@@ -3,10 +3,10 @@ CONSTANTS
   Gen <- MCGen
   HelperPath = "codable"
   Fails <- MCFails
-  EagerWrite = FALSE
+  EagerWrite = TRUE
   HelperBug = FALSE
-  MaxRuns = 3
+  MaxRuns = 4
 SPECIFICATION Spec
-INVARIANT Fresh EmitHistory
+INVARIANT Fresh 
 PROPERTIES Idempotent FailedRunTouchesNothing
 CHECK_DEADLOCK FALSE
